@@ -1,0 +1,19 @@
+//go:build verif
+
+package server
+
+import (
+	"context"
+
+	"github.com/aws/aws-sdk-go-v2/service/s3"
+	"github.com/tailscale/setec/db"
+)
+
+// VerifRunPeriodicBackup runs the server's periodic backup loop for d with an
+// injected S3 client and bucket, until ctx ends. It exists only under the
+// "verif" build tag, so that the loop can be driven by tests outside this
+// package (under testing/synctest, without network).
+func VerifRunPeriodicBackup(ctx context.Context, d *db.DB, c *s3.Client, bucket string) {
+	s := &Server{db: d, backupClient: c, backupBucket: bucket}
+	s.periodicBackup(ctx)
+}
